@@ -2159,7 +2159,16 @@ void vf_run(vf_rd *r, vf_report *rep) {
         for (unsigned i = 0; i < nh; i++) {
             if (hs[i].inplace) {
                 h = vf_mix(h, 0x1b0000u | hs[i].hk | ((uint64_t)hs[i].ip.cs << 8));
-                h = vf_hash_bytes(h, hs[i].ip.e, sizeof(ipedit) * hs[i].ip.ne);
+                for (unsigned k = 0; k < hs[i].ip.ne; k++) {
+                    const ipedit *e = &hs[i].ip.e[k];
+                    h = vf_mix(h, e->kind | ((uint64_t)e->sub << 8) |
+                                      ((uint64_t)e->call << 16) |
+                                      ((uint64_t)e->restore << 17) |
+                                      ((uint64_t)e->x << 24) |
+                                      ((uint64_t)e->i << 32) |
+                                      ((uint64_t)e->j << 48));
+                    h = vf_mix(h, e->d);
+                }
                 continue;
             }
             h = vf_mix(h, hs[i].t.kind | ((uint64_t)hs[i].t.n << 8) |
@@ -2196,7 +2205,13 @@ void vf_run(vf_rd *r, vf_report *rep) {
             ic.xor0 ^= T.v[k];
         }
     }
-    const unsigned ip_budget = T.n <= 300 ? 12 : T.n <= 4200 ? 4 : 2;
+    /* cost: in-place calls are full target executions.  The adaptive targets
+     * count distinct values exactly (quadratic) between 2300 and 10000
+     * elements: one in-place call in execution (b), no copy oracle. */
+    const int costly = T.n > 2300 && (kind == K_ADAPT_AUTO ||
+                                      kind == K_ADAPT_FORCED ||
+                                      kind == K_ADAPT_ANALYZE);
+    const unsigned ip_budget = costly ? 1 : T.n <= 300 ? 12 : T.n <= 4200 ? 4 : 2;
 
     /* (a) first thing: zeroed stack window, zero heap residue */
     {
@@ -2214,7 +2229,7 @@ void vf_run(vf_rd *r, vf_report *rep) {
         ic.budget = ip_budget;
         ic.ncall = 0;
         ic.classes = 1;
-        ic.observe_first = 1;
+        ic.observe_first = !costly;
         ic.observe_last = 0;
         run_history(&ic, &xh, hs, nh, -1, last_ip);
         if (!rep->violated) {
@@ -2227,11 +2242,11 @@ void vf_run(vf_rd *r, vf_report *rep) {
         ex x = {C, pb.sel != 2, wb};
         vf_alloc_fill((uint8_t)~heapfill);
         heap_residue((uint8_t)~heapfill, T.n);
-        ic.budget = ip_budget;
+        ic.budget = costly ? 0 : ip_budget;
         ic.ncall = 0;
         ic.classes = 0;
         ic.observe_first = 0;
-        ic.observe_last = T.n <= 4200;
+        ic.observe_last = !costly && T.n <= 4200;
         run_history(&ic, &xh, hs, nh, (int)variant, last_ip);
         if (!rep->violated) {
             run_target(&x, &T);
